@@ -136,7 +136,7 @@ def _grammar_oracle(name, doc, out, exc, kw):
 
 
 _mk("C01", "grammar", ("structural", "clipped", "cascade", "gradients", "stroked"), _grammar_oracle, "every normal return of topicosvg x ndigits {0,2,3,6} x {default, drop_unsupported, allow_text} checked by an independent grammar oracle",
-    pinned=("opacity_group_loses_sibling", "zero_opacity_outer_group", "drop_unsupported_leaves_single_child_group"))
+    pinned=("opacity_group_loses_sibling", "zero_opacity_outer_group", "drop_unsupported_leaves_single_child_group", "foreign_attribute_declared_on_a_stop", "zero_width_gradient_stroke_on_a_filled_shape"))
 
 
 def _idempotence_oracle(name, doc, out, exc, kw):
@@ -145,7 +145,7 @@ def _idempotence_oracle(name, doc, out, exc, kw):
     probs = []
     if exc is not None:
         return probs
-    for nd in ((3, 0, 6) if not name.startswith("cascade") else (3, 2, 6)):
+    for nd in ((3, 0, 6, 9) if name.startswith(("pinned:", "corpus:")) else (3, 0, 6) if not name.startswith("cascade") else (3, 2, 6)):
         try:
             one = SVG.fromstring(doc).topicosvg(ndigits=nd, **kw).tostring()
         except Exception:  # noqa
@@ -171,7 +171,7 @@ def _idempotence_oracle(name, doc, out, exc, kw):
 
 
 _mk("C07", "idempotence", ("structural", "clipped", "cascade", "gradients", "stroked"), _idempotence_oracle, "pass 1 vs pass 2 vs pass 3 byte for byte at ndigits 3, 0 (2 where opacities occur), 6; checkpicosvg() == ()",
-    pinned=("opacity_group_loses_sibling", "zero_opacity_outer_group", "defs_order_unstable", "clippath_written_inside_an_opacity_group"))
+    pinned=("opacity_group_loses_sibling", "zero_opacity_outer_group", "defs_order_unstable", "clippath_written_inside_an_opacity_group", "opacity_group_with_only_a_stroked_line", "vertex_a_hair_off_the_subpath_start"))
 
 
 def _reference_oracle(name, doc, out, exc, kw):
@@ -181,6 +181,12 @@ def _reference_oracle(name, doc, out, exc, kw):
         return []
     v = oracles.reference_violations(out)
     return [(v[0].split(" ")[0], v[0] + (f" (+{len(v) - 1} more)" if len(v) > 1 else ""))] if v else []
+
+
+def corpus_pinned(name):
+    from bounded import corpus
+
+    return corpus.PINNED[name]
 
 
 def _sharing_docs():
@@ -195,6 +201,7 @@ def _sharing_docs():
         "gradient_id_with_a_dot": f'<svg {NS} viewBox="0 0 100 100"><defs>{g("sky.1")}</defs><rect width="20" height="20" fill="url(#sky.1)"/></svg>',
         "drop_unsupported_drops_the_last_user": (f'<svg {NS} viewBox="0 0 100 100"><defs>{g("sky")}</defs><switch><rect width="20" height="20" fill="url(#sky)"/></switch><rect x="30" width="5" height="5"/></svg>', dict(drop_unsupported=True)),
         "allow_text_gradient_painted_text": (f'<svg {NS} viewBox="0 0 100 100"><defs>{g("sky")}</defs><text x="5" y="20" fill="url(#sky)">a</text><rect x="30" width="5" height="5"/></svg>', dict(allow_text=True)),
+        "zero_width_gradient_stroke_on_a_filled_shape": corpus_pinned("zero_width_gradient_stroke_on_a_filled_shape"),
         "gradient_only_in_defs_shape_used_transformed": f'<svg {NS} viewBox="0 0 100 100"><defs>{g("a")}<rect id="r" width="10" height="10" fill="url(#a)"/></defs><use xlink:href="#r" transform="translate(20 20) rotate(15)"/></svg>',
     }
 
@@ -232,7 +239,7 @@ component("C08", "refs.sharing_patterns", "bounded")(_refs_run(0))
 
 
 # ------------------------------------------------------------------------------------------------ C14 noise
-ALL_NOISE = ["comment", "pi", "title", "desc", "metadata", "foreign_el", "foreign_attr", "symbol", "wrapper", "whitespace", "nested_descriptive", "wrap_every_shape"]
+ALL_NOISE = ["comment", "pi", "title", "desc", "metadata", "foreign_el", "foreign_attr", "symbol", "wrapper", "whitespace", "nested_descriptive", "wrap_every_shape", "foreign_attr_local_ns", "prolog_mentions_svg", "root_attr_with_gt"]
 
 
 def noise_variants(doc, rnd, k=3, each_kind=False):
@@ -295,7 +302,18 @@ def noise_variants(doc, rnd, k=3, each_kind=False):
                 g.append(tgt)
             elif kind == "whitespace" and not inside_special and (parent is None or etree.QName(parent).localname not in ("text", "tspan", "textPath")):
                 tgt.tail = "\n   \t"  # white space is significant inside text content, ignorable between other elements
+            elif kind == "foreign_attr_local_ns":
+                # a foreign attribute whose namespace is declared on the very element that carries it (not on the root): a gradient stop
+                # if there is one, else the target (lxml writes the declaration where the prefix is first needed)
+                stops = [e for e in els if etree.QName(e).localname == "stop"]
+                (rnd.choice(stops) if stops else tgt).set("{urn:noise:local}locked", "true")
         text = etree.tostring(root).decode()
+        if "prolog_mentions_svg" in kinds:
+            # a comment and a processing instruction in front of the root that mention "<svg": whatever sniffs the root tag textually is fooled
+            text = '<!-- exported from <svg width="1"> by a tool --><?tool data="<svg>"?>' + text
+        if "root_attr_with_gt" in kinds:
+            # a foreign attribute on the root, before the namespace declarations, whose value contains ">"
+            text = text.replace("<svg ", '<svg xmlns:exp="urn:noise:export" exp:filename="icons->final/x.png" ', 1) if text.startswith("<svg ") else text
         if rnd.random() < 0.5:
             text = '<?xml version="1.0" encoding="UTF-8"?>\n' + text
         out.append((kinds, text))
@@ -406,7 +424,7 @@ def _prune_run(tier, seed):
     n = 16 if tier == "quick" else 400
     res.rule = "composited colour at grid points of the document before vs after SVG.remove_unpainted_shapes() and SVG.remove_empty_subpaths(), each called directly on the parsed source"
     res.bound = f"{n} generated cascade / structural documents (seed {seed}) + corpus + pinned documents"
-    docs = [(f"pinned:{k}", corpus.PINNED[k]) for k in ("group_style_hides_but_child_paints",)]
+    docs = [(f"pinned:{k}", corpus.PINNED[k]) for k in ("group_style_hides_but_child_paints", "evenodd_repeated_subpath")]
     docs += [(f"corpus:{k}", v) for k, v in corpus.DOCS.items()]
     for fam in ("cascade", "structural"):
         docs += list(gen.documents(fam, seed, n // 2))
